@@ -153,6 +153,8 @@ class C04:
         counters["monitored_calls"] = mon.calls
         counters["observations"] = mon.observations
         counters["objects_observed"] = len(mon.objs)
+        for cn, n in mon.by_class.items():
+            counters["steps." + cn] = n
         if mon.multi:
             counters["probe.observed_nested_midrefinement"] = mon.multi
         log.add("mon", mon.calls, mon.observations, len(mon.objs), mon.multi)
